@@ -177,7 +177,7 @@ def run(prop, tier, seed):
         c = prop.shrink(c, lambda cc: _still_fails(prop, cc, findings))
         o2 = _prop_all(prop, [c])[0]
         path = core.write_replay(pid, "input", {
-            "property": pid, "kind": "failing-input", "request": c.line, "prop_result": o2 or o,
+            "property": pid, "kind": "failing-input", "request": c.line, "failure": o, "prop_result_on_replay": o2,
             "impl_observation": core.run_impl([c.line])[0][:4000],
             "model_observation": (core.run_model([c.line])[0][:4000] if driver_ok else None),
             "how_to_replay": f"./check {pid} --replay <this file>",
